@@ -53,6 +53,11 @@
 (* sum_j (x_j - theta_cj)^2 / var_j, again an exact rational comparison.   *)
 (* Outside that family the Gaussian MAP clause is not decided (counted as  *)
 (* skipped).  Zero variances make the Gaussian score undefined: skipped.   *)
+(* Independently of all that, a class whose prior is exactly 0 (possible    *)
+(* only with user-supplied priors) has score -infinity and must never be   *)
+(* predicted; the family is then judged among the classes of positive prior.*)
+(* Gaussian features may be rescaled per column by exact powers of two      *)
+(* (e.ecol): the moments are exact per feature, the MAP class is invariant. *)
 (***************************************************************************)
 EXTENDS Integers, Sequences, FiniteSets
 
@@ -239,23 +244,38 @@ InScope(X, q) == Len(q) = Len(X[1]) /\ \A j \in 1..Len(q) : \E i \in 1..Len(X) :
 (***************************************************************************)
 GaussV(cnt, s1, s2) == [c \in 1..Len(cnt) |-> [j \in 1..Len(s1[1]) |-> cnt[c] * s2[c][j] - s1[c][j] * s1[c][j]]]
 GaussAnyZeroVar(V) == \E c \in 1..Len(V) : \E j \in 1..Len(V[1]) : V[c][j] = 0
+
+(* A class whose (user-supplied) prior is exactly 0 has score log 0 = -infinity whatever its
+   likelihood: it is never a MAP class as long as some class has a positive prior.  This needs
+   no logarithm and is decided for every variant. *)
+ZeroPrior(e, c) == e.hasPriors /\ e.priorsNum[c] = 0
+PosClasses(e, k) == {c \in 1..k : ~ZeroPrior(e, c)}
+
+(* the family is judged among the classes with positive prior: equal priors, equal sizes,
+   equal and positive per-feature spreads; ref is one of those classes *)
+GaussFamilyOn(e, cnt, V, pos, ref) ==
+    /\ \A c \in pos : cnt[c] = cnt[ref]
+    /\ (e.hasPriors => \A c \in pos : e.priorsNum[c] = e.priorsNum[ref])
+    /\ \A c \in pos : \A j \in 1..Len(V[1]) : V[c][j] = V[ref][j] /\ V[c][j] > 0
 GaussFamily(e, cnt, V) ==
-    /\ \A c \in 1..Len(cnt) : cnt[c] = cnt[1]
-    /\ (e.hasPriors => \A c \in 1..Len(cnt) : e.priorsNum[c] = e.priorsNum[1])
-    /\ \A c \in 1..Len(cnt) : \A j \in 1..Len(V[1]) : V[c][j] = V[1][j] /\ V[c][j] > 0
+    LET pos == PosClasses(e, Len(cnt)) IN pos # {} /\ GaussFamilyOn(e, cnt, V, pos, CHOOSE c \in pos : TRUE)
 
 RECURSIVE BigSumFrom(_, _)
 BigSumFrom(terms, i) == IF i > Len(terms) THEN <<0>> ELSE BigAdd(terms[i], BigSumFrom(terms, i + 1))
-GaussCost(cnt, s1, V, q, c) ==
+(* cost_c * prod_l V_l, V_l the common spread of feature l (taken from class ref) *)
+GaussCostRef(cnt, s1, V, ref, q, c) ==
     LET p == Len(q)
         D == [j \in 1..p |-> Abs(cnt[c] * q[j] - s1[c][j])]
     IN  BigSumFrom([j \in 1..p |->
-            BigProd(<<D[j], D[j]>> \o [l \in 1..(p - 1) |-> V[1][IF l < j THEN l ELSE l + 1]])], 1)
-(* costs[c] = cost_c * prod V, as Big; the predicted class must have minimal cost up to 2^-20 *)
-GaussVerdict(cls, costs, pred) ==
-    IF \E pi \in 1..Len(cls) : cls[pi] = pred /\
-          \A c \in 1..Len(cls) : BigLeq(BigProdFrom(costs[pi], K2, 1), BigProdFrom(costs[c], K1, 1))
+            BigProd(<<D[j], D[j]>> \o [l \in 1..(p - 1) |-> V[ref][IF l < j THEN l ELSE l + 1]])], 1)
+GaussCost(cnt, s1, V, q, c) == GaussCostRef(cnt, s1, V, 1, q, c)
+(* costs[c] = cost_c * prod V, as Big, for c in pos; the predicted class must be in pos and have
+   minimal cost among pos up to 2^-20 *)
+GaussVerdictOn(cls, costs, pos, pred) ==
+    IF \E pi \in pos : cls[pi] = pred /\
+          \A c \in pos : BigLeq(BigProdFrom(costs[pi], K2, 1), BigProdFrom(costs[c], K1, 1))
     THEN "ok" ELSE "bad"
+GaussVerdict(cls, costs, pred) == GaussVerdictOn(cls, costs, 1..Len(cls), pred)
 
 (***************************************************************************)
 (* The complete verdict on one NBFit event e (fields variant, X, y, aNum,  *)
@@ -275,7 +295,7 @@ ValidInput(e) ==
     /\ (e.variant = "categorical" => \A i \in 1..n : e.y[i] >= 0)
     /\ (e.variant = "bernoulli" /\ ~e.hasThr => \A i \in 1..n : \A j \in 1..p : e.X[i][j] \in {0, 1})
     /\ (e.hasPriors => e.variant # "categorical" /\ SumUpTo(e.priorsNum, Len(e.priorsNum)) = e.priorsDen
-                       /\ \A c \in 1..Len(e.priorsNum) : e.priorsNum[c] > 0)
+                       /\ \A c \in 1..Len(e.priorsNum) : e.priorsNum[c] >= 0)
 
 NBStats(e, cls) ==
     CASE e.variant = "gaussian" ->
@@ -298,8 +318,15 @@ StatsClause(e, cnt, st) ==       \* "" or the failing statistics clause of the v
             ELSE IF e.out.categoryCount # st.cc THEN "CategoryCount"
             ELSE IF ~CategoricalProbOK(e, cnt, st.ncat, st.cc) THEN "SmoothedProb" ELSE ""
 
+GaussQueryVerdict(e, cls, cnt, st, V, pos, ref, q, pred) ==
+    IF ~GaussFamilyOn(e, cnt, V, pos, ref) THEN "skip"
+    ELSE GaussVerdictOn(cls, [c \in 1..Len(cls) |-> IF c \in pos THEN GaussCostRef(cnt, st.s1, V, ref, q, c) ELSE <<0>>],
+                        pos, pred)
+
 QueryVerdict(e, cls, cnt, st, V, q, pred) ==
     IF ~InScope(e.X, q) THEN "out"
+    \* a class with prior exactly zero is never a MAP class (some other class has a positive prior)
+    ELSE IF \E c \in 1..Len(cls) : cls[c] = pred /\ ZeroPrior(e, c) THEN "bad"
     ELSE CASE e.variant = "multinomial" ->
                 ArgmaxVerdict([c \in 1..Len(cls) |-> MultinomialScore(e, cnt, st.fc, q, c)], cls, pred)
            [] e.variant = "bernoulli" ->
@@ -308,8 +335,8 @@ QueryVerdict(e, cls, cnt, st, V, q, pred) ==
            [] e.variant = "categorical" ->
                 ArgmaxVerdict([c \in 1..Len(cls) |-> CategoricalScore(e, cnt, st.ncat, st.cc, q, c)], cls, pred)
            [] e.variant = "gaussian" ->
-                IF ~GaussFamily(e, cnt, V) THEN "skip"
-                ELSE GaussVerdict(cls, [c \in 1..Len(cls) |-> GaussCost(cnt, st.s1, V, q, c)], pred)
+                LET pos == PosClasses(e, Len(cls))
+                IN  GaussQueryVerdict(e, cls, cnt, st, V, pos, CHOOSE c \in pos : TRUE, q, pred)
 
 NBV4(e, cls, cnt, st, V) ==
     IF e.variant = "gaussian" /\ GaussAnyZeroVar(V)
